@@ -154,6 +154,8 @@ pub struct CaseOut {
     pub outcome_hash: u64,
     /// the case could not be judged (discarded, counted)
     pub discarded: Option<String>,
+    /// what makes this case distinct when it is not (scenario, schedule, faults)
+    pub distinct_key: Option<u64>,
 }
 
 pub type CaseFn = fn(&mut CaseCtx) -> CaseOut;
